@@ -798,6 +798,12 @@ fn prepare(env: &mut VEnv, state: &Rc<RefCell<SystemState>>, prim: &Prim, d: &mu
     // direct expansion and direct glob on a clone of the environment (same virtual system)
     let mut env2 = env.clone();
     for (n, v) in &prim.assigns {
+        if let Some(user) = n.strip_prefix('~') {
+            // `~user=<dir>`: the home directory of a user, not a variable
+            state.borrow_mut().home_dirs.insert(user.to_string(), PathBuf::from(v.as_str()));
+        }
+    }
+    for (n, v) in prim.assigns.iter().filter(|(n, _)| !n.starts_with('~')) {
         let _ = env2.variables.get_or_new(n.clone(), Scope::Global).assign(v.clone(), None);
     }
     env2.options.set(ShellOption::Glob, if prim.glob_on { State::On } else { State::Off });
@@ -1140,7 +1146,7 @@ fn run_prim(prim: &Prim) -> (String, String, String) {
     let direct2 = Rc::clone(&direct);
     let prim2 = prim.clone();
     let mut script = String::new();
-    for (n, v) in &prim.assigns {
+    for (n, v) in prim.assigns.iter().filter(|(n, _)| !n.starts_with('~')) {
         script.push_str(&format!("{n}={}\n", sq(v)));
     }
     if !prim.glob_on {
@@ -1265,6 +1271,15 @@ const MODES_UNSEARCHABLE: [u32; 10] = [0o644, 0o400, 0o200, 0o000, 0o444, 0o070,
 /// every depth): what `*"*"`, `"?"?`, `a'['*`, `\**` … must find, and must not find
 const META_NAMES: [&str; 16] = ["a*", "*a", "**", "a?", "?a", "??", "[a", "[ab]", "*?", "?*", "a*b", "*]", "a[", "-*", ".*", "*."];
 
+/// names holding backslashes (second pass of wave 3): what `$v` with v=`\*`, `\?`, `\\`, `a\` … must find — the
+/// backslash from an expansion stays an ordinary character and makes the next one literal
+const BS_NAMES: [&str; 8] = ["\\*", "\\a", "\\\\", "\\?", "a\\", "\\[a]", "*\\", "\\[a"];
+/// what the variable of a backslash word holds
+const BS_VALUES: [&str; 18] = [
+    "\\*", "\\?", "\\[a]", "\\[", "\\\\", "\\\\*", "a\\", "\\", "*\\", "sub\\/a", "sub/\\*", "\\*\\", "\\a", "\\/", "\\**",
+    "\\*/a", "\\[a", "\\?\\",
+];
+
 fn gen_mode(r: &mut Rng, plain: bool) -> u32 {
     match r.below(10) {
         0..=4 => 0o755,
@@ -1285,6 +1300,22 @@ fn gen_dir(r: &mut Rng, plain: bool, prefix: &str, depth: usize, out: &mut Vec<E
                 used.push(name.to_string());
                 out.push(Entry::File(format!("{prefix}{name}")));
             }
+        }
+    }
+    if r.chance(1, 5) {
+        for _ in 0..1 + r.below(3) {
+            let name = *r.pick(&BS_NAMES);
+            if !used.iter().any(|u| u == name) {
+                used.push(name.to_string());
+                out.push(Entry::File(format!("{prefix}{name}")));
+            }
+        }
+        if depth < 2 && r.chance(1, 3) {
+            // a directory whose name ends in a backslash: `sub\/a` from an expansion is cut at the slash first
+            used.push("sub\\".to_string());
+            out.push(Entry::Dir(format!("{prefix}sub\\"), 0o755));
+            out.push(Entry::File(format!("{prefix}sub\\/a")));
+            out.push(Entry::File(format!("{prefix}sub\\/*")));
         }
     }
     for _ in 0..n {
@@ -1775,9 +1806,28 @@ fn gen_split(r: &mut Rng, base: usize) -> (String, Vec<(String, String)>) {
     (text, vec![(name, value)])
 }
 
+/// a word whose backslashes come from an unquoted expansion: before `*`, `?`, `[`, `/`, `\`, at the end
+fn gen_backslash_word(r: &mut Rng, base: usize) -> (String, Vec<(String, String)>) {
+    let name = format!("v{}", base + 1);
+    let value = *r.pick(&BS_VALUES);
+    let text = match r.below(9) {
+        0 | 1 | 2 => format!("${{{name}}}"),
+        3 => format!("${{{name}}}*"),
+        4 => format!("*${{{name}}}"),
+        5 => format!("sub/${{{name}}}"),
+        6 => format!("${{{name}}}/*"),
+        7 => format!("${{{name}}}\"\"*"),
+        _ => format!("?${{{name}}}?"),
+    };
+    (text, vec![(name, value.to_string())])
+}
+
 fn gen_word(r: &mut Rng, tree: &[Entry], base: usize, first_word: bool) -> (String, Vec<(String, String)>) {
     if r.chance(1, 12) {
         return gen_split(r, base);
+    }
+    if r.chance(1, 14) {
+        return gen_backslash_word(r, base);
     }
     if r.chance(1, 8) {
         return gen_adjacent(r, tree, base);
@@ -1796,11 +1846,18 @@ fn gen_word(r: &mut Rng, tree: &[Entry], base: usize, first_word: bool) -> (Stri
     let mut first = 0;
     match if first_word { r.below(14) } else { 2 + r.below(12) } {
         0 => g.text.push_str("/t/"),
-        1 => {
-            // tilde expansion: the value of HOME arrives as hard-expansion characters
-            let home = *r.pick(&["*", "a", "/t", "sub", "[ab]", "?"]);
-            g.assigns.push(("HOME".into(), home.to_string()));
-            g.text.push('~');
+        1 | 3 => {
+            // tilde expansion: the home directory arrives as hard-expansion characters, whatever it holds
+            // (pattern characters, a trailing slash that is dropped before a following slash); `~` takes
+            // HOME, `~u` the home directory of the user `u` (pseudo-assignment `~u`, see `prepare`)
+            let home = *r.pick(&["*", "a", "/t", "sub", "[ab]", "?", "sub/", "*/", "/t/sub/", "[", "a*", "?/", "[ab]/", "/"]);
+            if r.chance(1, 3) {
+                g.assigns.push(("~u".into(), home.to_string()));
+                g.text.push_str("~u");
+            } else {
+                g.assigns.push(("HOME".into(), home.to_string()));
+                g.text.push('~');
+            }
             first = 1;
         }
         2 => g.text.push_str("./"),
@@ -1968,7 +2025,7 @@ fn main() {
     if only {
         return;
     }
-    let (ntrees, nwords) = if o.thorough() { (5_000, 100) } else { (400, 25) };
+    let (ntrees, nwords) = if o.thorough() { (5_000, 100) } else { (320, 25) };
     let mut rng = Rng::new(o.seed ^ 0xC05);
     let mut index = 0usize;
     for _ in 0..ntrees {
